@@ -5012,9 +5012,28 @@ impl<'a, 'graph> Builder<'a, 'graph> {
     // a version selected in between and would then overwrite the redirect
     // (orphaning the module loaded for the first one) or leave an error
     // entry next to it.
+    // A plain import of a specifier that is also queued as an asset import
+    // takes the asset import's place, the way a plain load replaces an
+    // external asset for any other URL: the module has to be loaded as code.
     {
-      let mut seen_specifiers = HashSet::with_capacity(pending_resolutions.len());
-      pending_resolutions.retain(|r| seen_specifiers.insert(r.specifier.clone()));
+      let mut first_index: HashMap<ModuleSpecifier, usize> =
+        HashMap::with_capacity(pending_resolutions.len());
+      let mut deduped = VecDeque::with_capacity(pending_resolutions.len());
+      for item in pending_resolutions {
+        match first_index.get(&item.specifier) {
+          Some(&index) => {
+            let kept: &mut PendingJsrReqResolutionItem = &mut deduped[index];
+            if kept.is_asset && !item.is_asset {
+              *kept = item;
+            }
+          }
+          None => {
+            first_index.insert(item.specifier.clone(), deduped.len());
+            deduped.push_back(item);
+          }
+        }
+      }
+      pending_resolutions = deduped;
     }
     let mut pending_version_resolutions =
       Vec::with_capacity(pending_resolutions.len());
